@@ -48,7 +48,7 @@ def _ok(s):
     return R.decode_entities(s) == s  # entity-looking literals: excluded (known finding), counted by the caller
 
 
-def ident(maxlen, pool=("x", "1234", "A&B", "a<b>", 'q"t', "é漢", "it's")):
+def ident(maxlen, pool=("x", "1234", "A&B", "a<b>", 'q"t', "é漢", "it's", "S&P&reg500", "R&D&copy1", "x&sect", "q&lt1", "4111-1111-1111-1111", "55 00", "7-7", "0012")):
     return st.one_of(st.sampled_from([p for p in pool if len(p) <= maxlen]), st.text(CH, min_size=1, max_size=min(maxlen, 12)).filter(_ok))
 
 
